@@ -589,6 +589,8 @@ def verify_all(ctx, repo, prop="C16"):
     dsl.verify(ctx, repo, dsl.Registry(), prop, CONS + ".get_consensus_tree", h_pipeline, expect_covers=["pipeline.ran"])
     dsl.verify(ctx, repo, dsl.Registry(), prop, PT + ".get_tree_from_consensus_graph", h_consensus_labels, expect_covers=CLABEL_COVERS)
     dsl.verify(ctx, repo, dsl.Registry(), prop, TU + "._clades", h_clades_rec, expect_covers=["clades.rec"])
+    dsl.verify(ctx, repo, dsl.Registry(), prop, CONS + "._relabel", h_relabel_rec, expect_covers=["relabel.rec"])
+    dsl.verify(ctx, repo, dsl.Registry(), prop, CONS + ".clean_tree", h_clean_tree, expect_covers=["clean.with-data", "clean.without-data", "clean.empty", "clean.some-node"])
     dsl.verify(ctx, repo, dsl.Registry(), prop, TU + ".get_clades", h_get_clades, expect_covers=["get_clades.some-root", "get_clades.no-root"])
 
 
@@ -715,3 +717,203 @@ def h_get_clades(I, fi):
         dsl.cover(I, "get_clades.no-root")
         P.check("get_clades.empty-tree", not calls and not P.feasible(P.z(n) != 0), "a tree without clones has no clade", kind="post")
     P.check("get_clades.returns-frozen-collection", out == ("frozen", res), "the collection is returned as a frozenset", kind="post")
+
+
+# ------------------------------------------------------------------------------------------------------------ relabel
+
+
+def h_relabel_rec(I, fi):
+    """_relabel(node, transformed, original): the node stays keyed by its clade and carries own = clade minus every member of every child
+    clade (frozen after all removals); every child is processed recursively and attached under the node; the node is returned.
+    requires (M-LAMINAR + smallest-superset nesting): child clades are pairwise disjoint subsets of the node's clade, so `remove` finds its element."""
+    P = I.P
+    clade = Opaque("clade")
+    cur = SetExpr()
+    cur.removed = []
+    cur.m_remove = lambda I_, x: cur.removed.append(x)
+    I.registry.globals_override["set"] = lambda I_, x=(): (cur.parts.append(("copy-of", x)), cur)[1]
+    I.registry.globals_override["frozenset"] = lambda I_, x=(): ("frozen", x, tuple(x.parts) if isinstance(x, SetExpr) else None)
+    log = []
+    st = {"pass": 0}
+
+    class ChildClade(Opaque):
+        def for_loop(self, I_, lnode, fr):
+            e = Opaque("member")
+            n0 = len(cur.removed)
+            I_.assign_target(lnode.target, e, fr)
+            I_.exec_block(lnode.body, fr)
+            I_.P.check("relabel.removes-every-member-of-the-child", cur.removed[n0:] == [e], "every member of a child clade is removed from the node's own set, once", kind="post")
+            del cur.removed[n0:]
+            st["inner"] = self
+
+    class Edges(Model):
+        def for_loop(self, I_, lnode, fr):
+            st["pass"] += 1
+            c = ChildClade("child-clade-%d" % st["pass"])
+            n0 = len(log)
+            st.pop("inner", None)
+            I_.assign_target(lnode.target, (clade, c), fr)
+            I_.exec_block(lnode.body, fr)
+            if st["pass"] == 1:
+                I_.P.check("relabel.first-pass-subtracts", st.get("inner") is c and len(log) == n0, "first pass over the children: only subtraction", kind="post")
+                cur.parts.append(("minus-all-child-clades",))
+            else:
+                new = log[n0:]
+                ok = len(new) == 2 and new[0][0] == "rec" and new[0][1] is c and new[0][2] is transformed and new[0][3] is original and new[1] == ("edge", clade, ("relabelled", c))
+                I_.P.check("relabel.second-pass-recurses-and-attaches", ok, "second pass: every child is relabelled recursively and attached under the node", kind="post")
+
+    class Orig(Model):
+        def m_out_edges(self, I_, nd):
+            if nd is not clade:
+                raise Unsupported("out_edges of another node")
+            return Edges()
+
+    class Out(Model):
+        def m_add_node(self, I_, nd, **attrs):
+            log.append(("node", nd, attrs, st["pass"]))
+
+        def m_add_edge(self, I_, a, b):
+            log.append(("edge", a, b))
+
+    transformed, original = Out(), Orig()
+
+    def rec(I_, a, k, n):
+        log.append(("rec", a[0], a[1], a[2]))
+        return ("relabelled", a[0])
+
+    I.registry.call_contracts[fi.qualname] = rec
+    out = I.call_function(fi, [clade, transformed, original], {}, force_inline=True)
+    dsl.cover(I, "relabel.rec")
+    nodes = [e for e in log if e[0] == "node"]
+    want = (("copy-of", clade), ("minus-all-child-clades",))
+    ok = len(nodes) == 1 and nodes[0][1] is clade and set(nodes[0][2]) == {"own"} and nodes[0][2]["own"] == ("frozen", cur, want) and nodes[0][3] == 1
+    P.check("relabel.node-keyed-by-its-clade-with-own-set", ok, "the node is added under its clade with own = clade minus the members of all child clades (frozen after the subtraction, before the recursion)", kind="post")
+    P.check("relabel.returns-the-node", out is clade and st["pass"] == 2, "the clade is returned (it is the key the parent attaches)", kind="post")
+
+
+def h_clean_tree(I, fi):
+    """clean_tree(tree, data): clones are renumbered by their position in a depth-first pre-order (an injective renaming applied by
+    networkx.relabel_nodes), every new node carries idxs = sorted(own set of the node it came from) and names = the names of those data points."""
+    P = I.P
+    n = alg.sym("n_nodes", "Int")
+    P.assume(P.z(n) >= 0)
+    with_data = P.decide(2) == 1
+    dsl.cover(I, "clean.with-data" if with_data else "clean.without-data")
+    log = {"relabel": [], "attrs": []}
+    objs = {}
+
+    def old(k):
+        return objs.setdefault(I.to_num(k).key(), Opaque("old-node[%s]" % I.to_num(k).key()))
+
+    class RecDict(Model):
+        def __init__(self, name):
+            self.name, self.stores = name, []
+
+        def setitem(self, I_, k, v):
+            self.stores.append((k, v))
+
+        def getitem(self, I_, k):
+            for a, b in reversed(self.stores):
+                if a is k or (isinstance(a, Num) and isinstance(k, Num) and (a - k).is_zero()):
+                    return b
+            return ("value", self.name, k)
+
+        def m_items(self, I_):
+            # (old node, new number) pairs of the first loop: pair j is (preorder[j], j)
+            return SymSeq("items(%s)" % self.name, n, lambda j: (old(j), _ni(I_.to_num(j))))
+
+        def iterate_keys(self, I_):
+            return SymSeq("keys(%s)" % self.name, n, lambda j: _ni(I_.to_num(j)))
+
+        def for_loop(self, I_, lnode, fr):
+            return self.iterate_keys(I_).for_loop(I_, lnode, fr)
+
+    def _ni(x):
+        from pyvc.builtins_model import _num_or_int
+        return _num_or_int(x)
+
+    node_map, idx_map = RecDict("node_map"), RecDict("idx_map")
+    order = [node_map, idx_map]
+    I.registry.empty_dict_model = lambda I_: order.pop(0) if order else None
+
+    class NodesView(Model):
+        def getitem(self, I_, nd):
+            return {"own": ("own-of", nd)}
+
+    class G(Model):
+        def a_nodes(self, I_):
+            return NodesView()
+
+    g = G()
+
+    class Nx(Model):
+        def m_dfs_preorder_nodes(self, I_, t):
+            return SymSeq("preorder", n, lambda j: old(j))
+
+        def m_relabel_nodes(self, I_, t, mapping):
+            log["relabel"].append((t, mapping))
+            return ("relabelled-graph",)
+
+        def m_set_node_attributes(self, I_, t, name=None, values=None):
+            log["attrs"].append((t, name, values))
+
+    I.registry.globals_override["nx"] = Nx()
+    I.registry.globals_override["sorted"] = lambda I_, x, **k: ("sorted", x)
+    names = RecDict("name_map")
+
+    class NameLists(Model):
+        def getitem(self, I_, k):
+            return NameList(k)
+
+    class NameList(Model):
+        def __init__(self, k):
+            self.k = k
+
+        def m_append(self, I_, x):
+            names.stores.append((self.k, x))
+
+    I.registry.globals_override["defaultdict"] = lambda I_, f=None: NameLists()
+
+    class DP(Model):
+        def __init__(self, i):
+            self.i = i
+
+        def a_name(self, I_):
+            return ("name-of", self.i if not isinstance(self.i, Num) else self.i.key())
+
+    class Data(Model):
+        def getitem(self, I_, i):
+            return DP(i)
+
+    # idx lists: sorted(own) of the generic node is iterated in the names loop
+    class SortedOwn(tuple):
+        pass
+
+    I.registry.generic_loops.add(fi.qualname)
+    I.registry.generic_store_ok = {"node_map", "idx_map"}
+    out = I.call_function(fi, [g], {"data": Data() if with_data else None}, force_inline=True)
+    gens = P.ghost.get("generic_indices", [])
+    P.check("clean.returns-the-relabelled-graph", out == ("relabelled-graph",), "the renumbered graph is returned", kind="post")
+    P.check("clean.relabel-with-the-node-map", len(log["relabel"]) == 1 and log["relabel"][0][0] is g and log["relabel"][0][1] is node_map, "networkx relabels the input graph with the node map", kind="post")
+    if not gens:
+        dsl.cover(I, "clean.empty")
+        return
+    dsl.cover(I, "clean.some-node")
+    j1 = gens[0]
+    s0 = node_map.stores[0] if node_map.stores else None
+    P.check("clean.node-map-is-the-preorder-position", s0 is not None and len(node_map.stores) == 1 and s0[0] is old(j1) and (I.to_num(s0[1]) - j1).is_zero(),
+            "the j-th node of the pre-order gets number j (distinct nodes get distinct numbers)", kind="post")
+    if len(gens) >= 2 and idx_map.stores:
+        j2 = gens[1]
+        s1 = idx_map.stores[0]
+        P.check("clean.idxs-are-the-sorted-own-set", len(idx_map.stores) == 1 and (I.to_num(s1[0]) - j2).is_zero() and s1[1] == ("sorted", ("own-of", old(j2))),
+                "new node j carries the sorted own set of the node it came from", kind="post")
+    else:
+        P.check("clean.idxs-are-the-sorted-own-set", False, "new node j carries the sorted own set of the node it came from", kind="post")
+    a0 = log["attrs"][0] if log["attrs"] else None
+    P.check("clean.idxs-attribute", a0 is not None and a0[0] == ("relabelled-graph",) and a0[1] == "idxs" and a0[2] is idx_map, "the idxs attribute of the new graph is that map", kind="post")
+    if with_data:
+        a1 = log["attrs"][1] if len(log["attrs"]) > 1 else None
+        P.check("clean.names-attribute", a1 is not None and a1[0] == ("relabelled-graph",) and a1[1] == "names" and isinstance(a1[2], NameLists) and len(log["attrs"]) == 2, "with data the names attribute is set from the name map", kind="post")
+    else:
+        P.check("clean.no-names-without-data", len(log["attrs"]) == 1, "without data no names are set", kind="post")
